@@ -23,6 +23,7 @@ const (
 	defaultBindingRefreshInterval = 5 * time.Minute
 	defaultBindingCheckInterval   = 30 * time.Second
 	maxRetryAttempts              = 3
+	maxPayloadSize                = 0xFFFF // what a 16-bit length field can announce
 )
 
 const (
@@ -199,6 +200,13 @@ func (c *UDPConn) WriteTo(payload []byte, addr net.Addr) (int, error) { //nolint
 		}
 	}
 
+	// The length fields of a ChannelData message and of a DATA attribute have 16 bits: a larger
+	// payload cannot be framed (its length would wrap around and, on a stream transport, the
+	// bytes that follow would throw the server's framing out of step).
+	if len(payload) > maxPayloadSize {
+		return 0, errPayloadTooLarge
+	}
+
 	// Check if we have a permission for the destination IP addr
 	perm, ok := c.permMap.find(addr)
 	if !ok {
@@ -246,6 +254,10 @@ func (c *UDPConn) WriteTo(payload []byte, addr net.Addr) (int, error) { //nolint
 		)
 		if err != nil {
 			return 0, err
+		}
+		// The STUN message length has 16 bits, too, and counts the other attributes as well.
+		if msg.Length > maxPayloadSize {
+			return 0, errPayloadTooLarge
 		}
 
 		if _, err = c.client.WriteTo(msg.Raw, c.serverAddr); err != nil {
